@@ -50,6 +50,31 @@ CLAIMED.update({
             "TLA+ model checking (TLC) refinement check + spec->impl transition replay + impl->spec trace validation"),
 })
 
+CLAIMED.update({
+    "C01": ("3.C01", "MC_Lang: TLC checks Ev(f) = Canon(Sem(f)) -- the model of eval_recursive/replace_var against the set-based denotational "
+            "semantics -- for every spine formula of depth <= 2 over {a,b,X} (1.0 M formulas, every node kind, binders, shadowing, counting, "
+            "fixed points); every depth <= 1 formula and a sample of depth 2 is rendered (random operator spellings, whitespace, comments, "
+            "stray characters, with/without an explicit ordering) and evaluated by the real solver, truth table compared by variable name, "
+            "is_true/is_false compared; random deep formulas (<= 6 names, monotone fixed points) are parsed and evaluated by the real code and "
+            "validated by Trace_Lang against Sem.",
+            "TLA+ model checking (TLC) of Lang.tla + spec->impl case replay + impl->spec trace validation"),
+    "C06": ("3.C06", "MC_Lang (Mode=fix): for every spine body (depth <= 1 quick / 2 thorough, plus simulated depth 3) that is semantically monotone in X "
+            "(all pairs of subsets), lfp/gfp X are the least/greatest fixed point against ALL subsets incl. every pre/post-fixed point "
+            "(Knaster-Tarski), reached within |Asg|+1 iterations by Sem and by the evaluator model; same bodies evaluated by the real solver "
+            "under lfp/mu/gfp/nu with a termination watchdog; fp(a,t) call-by-call against Bdd!FpIter (Trace_Bdd); random monotone nests via "
+            "Trace_Lang.",
+            "TLA+ model checking (TLC) + spec->impl case replay + impl->spec trace validation"),
+    "C08": ("3.C08", "MC_Syntax: every token sequence over the 20-class alphabet up to length 4 (thorough 5) is decided by the grammar in TLC and by the "
+            "real parser (two renderings each): accepted <=> sentence and same tree; every string of <= 3 (thorough 4, sampled) pieces of the "
+            "character alphabet is tokenized by both; all spellings/longest-match cases as TLC theorems; Parse(Print(t)) = t for 1.0 M trees; "
+            "random and mutated texts are validated by Trace_Lang (token list, Ok/Err, tree).",
+            "TLA+ model checking (TLC) of Syntax.tla + spec->impl exhaustive enumeration replay + impl->spec trace validation"),
+    "C09": ("3.C09", "MC_Lang: Mentions(Ev(f)) within FV(f) within NamesOf(f) for 1.0 M formulas; the real .free_vars/.vars/support of the evaluated "
+            "diagram are compared with FV/NamesOf (in id order, default and explicit ordering) for every emitted case and for random deep "
+            "formulas (Trace_Lang).",
+            "TLA+ model checking (TLC) + spec->impl case replay + impl->spec trace validation"),
+})
+
 PENDING_REASON = "machinery for this property is not built yet in this revision (planned in DESIGN.md section 3); no claim is made"
 
 ALL = ["C%02d" % i for i in range(1, 21)]
